@@ -33,7 +33,8 @@ def run(ctx):
             ctx.broken('theorem', 'grep gate', hits)
         ctx.coqchk('SDC.Props.C02')
     return ctx.finish(
-        rule='crafted scenario histories (several delete / re-create cycles of one descriptor / context state handle with '
+        rule='histories also contain empty transactions of every kind (empty body, get_state + unget_state, every call refused), API calls that are refused and handled inside the body (the refused statement must leave nothing of itself), re-creation of context state handles through add_state, reseq operations that change only the InstanceId, and the same transaction on the same handle set repeated; '
+             'crafted scenario histories (several delete / re-create cycles of one descriptor / context state handle with '
              'updates in between, entities read early and written after other commits on the same object through state, '
              'context and descriptor transactions, aborted re-creations, root descriptors, context descriptors with several '
              'states) followed by random tails, plus random transaction histories (state / context / location / descriptor '
